@@ -9,6 +9,10 @@ func extraMain(cmd string) bool {
 		putMain()
 	case "put-replay":
 		putReplay()
+	case "rounds":
+		roundsMain()
+	case "rounds-replay":
+		roundsReplay()
 	default:
 		return false
 	}
